@@ -749,3 +749,7 @@ def run(R) -> None:
     R.rule('C01.R4', lambda: r4_index_parsing(R))
     R.rule('C01.R5', lambda: r5_tokeniser(R))
     R.rule('C01.R6', lambda: r6_order(R))
+    # "the pass writes nothing except those left-hand-side elements": every generated statement is one plain assignment
+    # with one target (C13.R5b owns the reader)
+    from rules import c13
+    R.rule('C01.R7', lambda: c13.r5b_statement_kind(R))
